@@ -260,6 +260,26 @@ def run(repo, tier):
     except NotAlgebraic as e:
         ok, detail = False, str(e)
     r.ob("R13.4", f"{REL}::float2mpf man * 2**exp", ok, detail, loc(REL, fm))
+    # the mpf is normalised to the float's own precision (or not rounded at all), never to the context's
+    own_prec = set()
+    for st in ast.walk(fm):
+        if isinstance(st, ast.Assign) and isinstance(st.value, ast.Call) and (dotted(st.value.func) or "").endswith("get_precision") \
+                and len(st.value.args) == 1 and dotted(st.value.args[0]) == "x":
+            own_prec |= {t.id for t in st.targets if isinstance(t, ast.Name)}
+    fme = [c for c in ast.walk(fm) if isinstance(c, ast.Call) and (dotted(c.func) or "").endswith("from_man_exp")]
+    if not fme:
+        raise AnalysisError("float2mpf: from_man_exp call not found")
+    for c in fme:
+        starred = any(isinstance(a, ast.Starred) for a in c.args) or any(kw.arg is None for kw in c.keywords)
+        prec_arg = c.args[2] if len(c.args) > 2 else next((kw.value for kw in c.keywords if kw.arg == "prec"), None)
+        if starred:
+            ok, detail = False, f"`{norm_src(c)}` takes its precision/rounding from an unpacked sequence; a context precision below the float's precision rounds the significand"
+        elif prec_arg is None:
+            ok, detail = True, "from_man_exp without a precision does not round"
+        else:
+            ok = isinstance(prec_arg, ast.Name) and prec_arg.id in own_prec
+            detail = f"normalisation precision is `{norm_src(prec_arg)}`; names bound to get_precision(x): {sorted(own_prec)}"
+        r.ob("R13.4", f"{REL}::float2mpf normalisation precision", ok, detail, loc(REL, c))
     # float2fraction: field sizes derived from finfo
     f = repo.func(REL, "float2fraction")
     env = {}
